@@ -110,6 +110,14 @@ CHECKS["C09"] = dict(technique=FN, category="model_checking", ref="DESIGN.md sec
           "records are judged by TLC (with accept/reject canaries)."),
     note=TB + " Signed finding: the 15-field (Linux 2.4) layout is decoded one column early (an existing unit test pins that mapping).")
 
+CHECKS["C12"] = dict(technique=FN, category="model_checking", ref="DESIGN.md section 3 C12",
+    text=("ProcText.tla defines cmdline/environ/exe/cwd/name on the raw bytes the kernel exposes (five input families incl. an "
+          "exe-memo state machine over link phases ok/withheld/denied/zombie) with structural invariants (argv round trip, "
+          "declarative = operational environ fold, sticky exe answer, errors not remembered); TLC enumerates 21k (thorough "
+          "338k) states; 9.8k-164k cases are replayed into the real methods over simkernel's sealed world (link targets and "
+          "the files they name), and 4k-30k random records are judged by TLC with rejecting canaries."),
+    note=TB + " Outcomes the statement leaves open are accepted as sets (listed in evidence assumptions).")
+
 PENDING = "check under construction in this round (see DESIGN.md section 6 work order)"
 NA = {}
 
